@@ -344,8 +344,8 @@ def draw_value(d, T):
         return d.pick([v for _n, v in T['named']])
     if k == 'BITSTRING':
         n = d.pick([0, 1, 7, 8, 9, 15, 16, 17]) if d.pct(40) else d.int(0, 40)
-        if d.pct(d.cfg['long_str_pct']):
-            n = d.pick([7999, 8000, 8001, 8008, 16001])
+        if d.pct(d.cfg.get('long_bits_pct', d.cfg['long_str_pct'])):
+            n = d.pick([7999, 8000, 8001, 8008, 16001, 16003])
         if n == 0:
             return (0, 0)
         if n > 64:
@@ -353,8 +353,18 @@ def draw_value(d, T):
             val = 0
             for _ in range(n // 64 + 1):
                 val = (val << 64) | unit
-            return (n, val & ((1 << n) - 1))
-        return (n, d.int(0, 2 ** n - 1))
+            val &= (1 << n) - 1
+            if d.pct(50):
+                # leading zero bits (an all-zero first segment when the value is long enough)
+                val >>= d.pick([1, 8, 64, 8000, 8001])
+            return (n, val)
+        val = d.int(0, 2 ** n - 1)
+        r = d.int(0, 9)
+        if r < 3:
+            val >>= d.int(1, n)                     # leading zero bits / octets
+        elif r < 5:
+            val = (val << d.int(1, n)) & (2 ** n - 1)   # trailing zero bits / octets
+        return (n, val)
     if k == 'OCTETSTRING':
         n = draw_size(d)
         if n > 64:
